@@ -2,11 +2,14 @@
 import json, sys
 pid = sys.argv[1]
 variant = len(sys.argv) > 2
+third = len(sys.argv) > 2 and sys.argv[2] == 'y'
 for l in open('/verif/properties.jsonl'):
     p = json.loads(l)
     if p['id'] == pid:
         break
 extra = (" This is a second round: go for the less obvious sites - secondary subclasses that override or inherit the mechanism, rarely used keyword arguments and flags, helper functions shared by several features, boundary cases of sizes (empty, single, unequal), and interactions between two features - rather than the most central line of the main function." if variant else "")
+if third:
+    extra = " This is a third round (the obvious sites have been tried): pick sites that need TWO things to go wrong together or a long-range interaction - a cache, memo or default argument shared between calls; an `upgrade` / class-dispatch path taken only by subclasses (tensor, circuit, zx, biclosed, cartesian, Sum, Bubble, Swap / Cup / Cap boxes); `__eq__` / `__hash__` / `__repr__` helpers that other features rely on; arguments given as generators, tuples or numpy types instead of lists and ints; negative, zero or boolean values where ints are expected; an operation applied twice or to its own output - and entry points named in the property that are far from the main function."
 print(f"""You are given a scratch git worktree of the open-source Python library DisCoPy (oxford-quantum-group/discopy, a toolbox for monoidal-category string diagrams) at /tmp/mut/{pid} (a checkout of the current main branch; python interpreter: /venv/bin/python, run things with `cd /tmp/mut/{pid} && PYTHONPATH=/tmp/mut/{pid} /venv/bin/python ...`; the test suite runs with `cd /tmp/mut/{pid} && PYTHONPATH=/tmp/mut/{pid} /venv/bin/python -m pytest -q -p no:cacheprovider test` — 219 tests pass and exactly these 10 fail for environment reasons and must be ignored: test_drawing::test_draw_eggs, test_drawing::test_pregroup_draw, test_tensor::test_Tensor_scalar and seven tests in test_zx.py about pyzx/circuit2zx). Work ONLY inside /tmp/mut/{pid}; do not read or touch /verif or /repo or any other directory; there is no network.
 
 Here is a semantic property that the library is supposed to satisfy:
@@ -18,4 +21,4 @@ Here is a semantic property that the library is supposed to satisfy:
 
 Your task: produce TWO different, independent, realistic changes to the library source (each a small patch to files under discopy/, like a plausible refactoring slip, an off-by-one, a wrong branch condition, a forgotten case, a dropped update of a second data structure, ...) such that, for EACH change taken alone: (1) the library still imports and the existing test suite still passes exactly as before (the same 219 pass / 10 fail — run it and check); (2) the property above is violated; (3) the violation needs something specific to manifest — an unusual input, a particular multi-step sequence of operations, a specific combination of arguments, or two cooperating sites that each look fine alone — NOT something ordinary use would expose at once. Prefer changes deep inside the mechanisms that make the property hold.{extra}
 
-For each change i in (1, 2) write: /tmp/mut/{pid}/out/patch{{i}}.diff (unified diff from `git diff` against the unmodified worktree, applying with `git apply` at the repository root), /tmp/mut/{pid}/out/demo{{i}}.py (a small stand-alone Python program that exits 0 and prints PASS on the UNMODIFIED code and exits 1 printing FAIL plus a short explanation on the modified code; it must import discopy from the current directory via PYTHONPATH), and /tmp/mut/{pid}/out/meta{{i}}.json with keys: property ("{pid}"), summary (one sentence: what the change is), needs (what specific input / sequence / combination is needed for the violation to manifest), files (list of changed files). Verify everything yourself: demo passes on clean code (`git stash` or `git checkout -- .` to get clean code; the out/ directory is untracked and survives), fails with the patch applied, and the test suite result is unchanged with the patch applied. Leave the worktree CLEAN (no patch applied) at the end, with only the out/ directory added. Reply with a short summary of the two changes.""")
+For each change i in (1, 2) write: /tmp/mut/{pid}/out/patch{{i}}.diff (unified diff from `git diff` against the unmodified worktree, applying with `git apply` at the repository root), /tmp/mut/{pid}/out/demo{{i}}.py (a small stand-alone Python program that exits 0 and prints PASS on the UNMODIFIED code and exits 1 printing FAIL plus a short explanation on the modified code; it must import discopy from the current directory via PYTHONPATH), and /tmp/mut/{pid}/out/meta{{i}}.json with keys: property ("{pid}"), summary (one sentence: what the change is), needs (what specific input / sequence / combination is needed for the violation to manifest), files (list of changed files). Verify everything yourself: demo passes on clean code (save your change with `git diff > out/patchN.diff`, get clean code with `git checkout -- .`, re-apply with `git apply out/patchN.diff`; do NOT use `git stash`: the stash is shared with other worktrees of the same repository that other people use concurrently; the out/ directory is untracked and survives), fails with the patch applied, and the test suite result is unchanged with the patch applied. Leave the worktree CLEAN (no patch applied) at the end, with only the out/ directory added. Reply with a short summary of the two changes.""")
